@@ -38,6 +38,9 @@ type Case struct {
 	Scheme    string     `json:"scheme"` // x509 | sa
 	Format    string     `json:"format"`
 	Expiry    int64      `json:"expiry"`  // 0 = none
+	// ExpiryNow (Expiry == 0 only): the envelope expires at the very second in which the case is built and
+	// verified: "a signature whose expiry time is not after the moment of verification fails"
+	ExpiryNow bool `json:"expiryNow,omitempty"`
 	Windows   [][2]int64 `json:"windows"` // per chain position (leaf first): notBefore, notAfter offsets
 	SignTime  int64      `json:"signTime"`
 	TSAStore  bool       `json:"tsaStore"`
@@ -110,8 +113,8 @@ func model(c Case) verdicts {
 	v.expiryFail = c.Expiry != 0 && c.Expiry <= 0 // expiry not after now (offsets keep >= 30 s from now)
 	if c.Expiry > 0 {
 		v.expiryFail = false
-	} else if c.Expiry < 0 {
-		v.expiryFail = true
+	} else if c.Expiry < 0 || c.ExpiryNow {
+		v.expiryFail = true // ExpiryNow: the expiry is the start of a second that the verification cannot precede
 	}
 	validNow := true
 	expired := false
@@ -190,6 +193,8 @@ func check(c Case) (string, string, verdicts) {
 		Scheme: scheme, SigningTime: at(c.SignTime), Chain: ch.X509(), Key: ch.Leaf().Key}
 	if c.Expiry != 0 {
 		spec.Expiry = at(c.Expiry)
+	} else if c.ExpiryNow {
+		spec.Expiry = time.Now().Truncate(time.Second)
 	}
 	var issuer *pki.TSA
 	switch c.Token {
@@ -245,7 +250,8 @@ func check(c Case) (string, string, verdicts) {
 		tsaName = "x" // same name as the signing store, another type
 	}
 	if c.TSAStore {
-		switch c.StoreOrd % 4 {
+		otherType := map[string]string{"ca": "signingAuthority", "signingAuthority": "ca"}[storeType]
+		switch c.StoreOrd % 6 {
 		case 0:
 			stores = append(stores, "tsa:"+tsaName)
 		case 1: // tsa store listed first
@@ -255,6 +261,12 @@ func check(c Case) (string, string, verdicts) {
 			ts.Put(storeType, "second", otherTSARoot.Cert)
 		case 3: // listed twice
 			stores = []string{"tsa:" + tsaName, storeType + ":x", "tsa:" + tsaName}
+		case 4: // after a store of the other signing scheme's type
+			stores = []string{storeType + ":x", otherType + ":other", "tsa:" + tsaName}
+			ts.Put(otherType, "other", otherTSARoot.Cert)
+		case 5: // between a store of the other scheme's type and the store of this one
+			stores = []string{otherType + ":other", "tsa:" + tsaName, storeType + ":x"}
+			ts.Put(otherType, "other", otherTSARoot.Cert)
 		}
 		ts.Put("tsa", tsaName, tsaRoot.Cert)
 	}
@@ -373,6 +385,8 @@ func check(c Case) (string, string, verdicts) {
 func classes(c Case, v verdicts) []string {
 	cl := []string{"scheme=" + c.Scheme, "format=" + c.Format, fmt.Sprintf("chain=%d", len(c.Windows))}
 	switch {
+	case c.ExpiryNow:
+		cl = append(cl, "expiry=this-very-second")
 	case c.Expiry == 0:
 		cl = append(cl, "expiry=none")
 	case c.Expiry > 0:
@@ -392,7 +406,7 @@ func classes(c Case, v verdicts) []string {
 	}
 	if c.Scheme == "x509" {
 		if c.TSAStore {
-			cl = append(cl, "tsa-store-listed", "option="+c.Option, fmt.Sprintf("store-order=%d", c.StoreOrd%4))
+			cl = append(cl, "tsa-store-listed", "option="+c.Option, fmt.Sprintf("store-order=%d", c.StoreOrd%6))
 		}
 		if v.applies {
 			cl = append(cl, "tsa=applies", "token="+c.Token, "tsarev="+c.TSARev)
@@ -502,6 +516,7 @@ func drawCase(rt *rapid.T) Case {
 			c.EdgeLabel = ""
 		}
 	}
+	c.ExpiryNow = c.Expiry == 0 && rapid.IntRange(0, 2).Draw(rt, "expiryNow") == 0 && c.SignTime <= -5
 	if c.Expiry != 0 && c.SignTime >= c.Expiry { // the envelope format requires expiry after signing time
 		if c.Scheme == "sa" {
 			c.Expiry = 0
@@ -513,7 +528,7 @@ func drawCase(rt *rapid.T) Case {
 		c.GenTime, c.Accuracy = 0, 0
 	}
 	c.Warm = rp.Pick(rt, "warm", "", "", "", "plain", "token", "expired")
-	c.StoreOrd = rapid.IntRange(0, 3).Draw(rt, "storeOrder")
+	c.StoreOrd = rapid.IntRange(0, 5).Draw(rt, "storeOrder")
 	c.RevAction = rp.Pick(rt, "revAction", "", "", "skip", "skip", "enforce")
 	c.Ctor = rp.Pick(rt, "ctor", "", "", "legacy")
 	c.AnchorInter = len(c.Windows) >= 3 && rapid.IntRange(0, 2).Draw(rt, "anchorIntermediate") == 0
